@@ -1,11 +1,11 @@
 CONSTANTS
   N = 3
   M = 3
-  MinNP = 1
-  MaxNP = 2
+  MinNP = 3
+  MaxNP = 3
   SamePart = TRUE
-  MaskStride = 4
-  MaskOff = 0
+  MaskStride = 64
+  MaskOff = 5
 INIT Init
 NEXT Next
 INVARIANTS SplitInv PatternInv GhostInv DistSpmvInv ScalarsInv NoErrInv LogInv
